@@ -928,6 +928,7 @@ type printer struct {
 	sp          *spell
 	lines       []string
 	lastComment string
+	inlineAnn   bool // the line being emitted carries an inline annotation
 	pending     string
 	pendingAt   int
 }
@@ -954,7 +955,18 @@ func compactText(n *node) string {
 func (p *printer) emit(depth int, content string) {
 	sp := p.sp
 	p.lines = append(p.lines, sp.between(depth)...)
-	p.lines = append(p.lines, sp.ind(depth)+content)
+	line := sp.ind(depth)
+	if sp.chance(sp.cBlock / 2) { // a closed one-line block in front of the content of the line
+		line += "###" + []string{" c ", "x", " \"a\": 1, ", " // {min: 1} ", " [ "}[sp.r.Intn(5)] + "###" + []string{"", " ", "\t"}[sp.r.Intn(3)]
+	}
+	line += content
+	if !p.inlineAnn && !sp.tailClean && sp.chance(sp.cBlock/2) {
+		// a block behind the content (not behind an inline annotation: the rest of that line belongs to it); it may
+		// span lines, the line break that follows it is the one that ends the line for the annotation binding
+		line += []string{"", " ", "  "}[sp.r.Intn(3)] + "###" + []string{" 333 ", " 333" + sp.eol() + "   444" + sp.eol(), " some comment 1 ", sp.eol() + "\"z\": 0," + sp.eol()}[sp.r.Intn(4)] + "###"
+	}
+	p.inlineAnn = false
+	p.lines = append(p.lines, line)
 	p.lastComment = sp.endComment()
 	if !sp.tailClean {
 		p.lines[len(p.lines)-1] += p.lastComment
@@ -973,6 +985,7 @@ func (p *printer) node(n *node, depth int, prefix, comma string) {
 		if a == "" {
 			return ""
 		}
+		p.inlineAnn = strings.HasPrefix(a, "//")
 		return " " + sp.sps() + a
 	}
 	if prefix != "" && sp.spaces > 0 { // `"key" : value`
